@@ -40,6 +40,9 @@ pub(crate) struct SyncTrackerRes {
     /// so that in the next detect step they will be skipped and avoid ensless loop.
     pub(crate) pushed_component_from_network: HashSet<ComponentChangeId>,
     pub(crate) pushed_handles_from_network: HashSet<AssId>,
+    /// Parent links (child uuid -> parent uuid) applied from the network and not yet seen by the
+    /// parent tracking systems, so that they are not announced again.
+    pub(crate) pushed_parent_from_network: HashMap<Uuid, Uuid>,
 
     pub(crate) sync_materials: bool,
     pub(crate) sync_meshes: bool,
@@ -74,6 +77,10 @@ impl SyncTrackerRes {
         }
         self.changed_components_to_send
             .push_back(ComponentChange { change_id, data });
+    }
+
+    pub(crate) fn skip_network_parent_change(&mut self, child: Uuid, parent: Uuid) -> bool {
+        self.pushed_parent_from_network.remove(&child) == Some(parent)
     }
 
     pub(crate) fn skip_network_handle_change(&mut self, id: AssId) -> bool {
